@@ -58,6 +58,49 @@ theorem sim_fresh {cfg : Cfg} {a : A} {s : State} (hs : Sim cfg a s) (u : Nat) (
     omega
 
 
+/-! ## `checkInfos` through the simulation -/
+
+/-- `checkInfos` passes when every CLIENT_INFO frame among the events describes a module as the table of `base` has it
+    (`InfoTo`), and the entries of `X` match the table of `base` (connections in `E` excepted — those are not connected
+    in `X`) -/
+theorem checkInfos_core {cfg : Cfg} {X : A} {base s0 s2 : State} {E : Nat → Prop}
+    (hi : InfoTo base E s0 s2) (evs : List Ev) (he : s2.out = s0.out ++ evs)
+    (h2 : ∀ v m am, base.find v = some m → X.get v = some am → am.connected = true → SimMod cfg am m)
+    (hE : ∀ v am, E v → X.get v = some am → am.connected = false) :
+    Spec.checkInfos X evs = X := by
+  apply Spec.checkInfos_ok
+  intro p hp v pid mid lg uq nm hb am hget hconn
+  have hin : (p.1, p.2.2) ∈ dataSends isInfo evs := by
+    rw [← sends_filter_map]
+    exact List.mem_map.mpr ⟨p, List.mem_filter.mpr ⟨hp, by simp [hb, isInfo]⟩, rfl⟩
+  rcases hi.2 evs he (p.1, p.2.2) hin v pid mid lg uq nm hb with h | ⟨m, hm, hbody⟩
+  · rw [hE v am h hget] at hconn; cases hconn
+  · have hsm := h2 v m am hm hget hconn
+    have hb' : infoBody m = Body.info v pid mid lg uq nm := by rw [hbody]; exact hb
+    unfold infoBody at hb'
+    simp only [Body.info.injEq] at hb'
+    obtain ⟨_, h2', h3, h4, h5, h6⟩ := hb'
+    exact ⟨by rw [← h3, hsm.modId], by rw [← h4, hsm.isLogger], by rw [← h5, hsm.unique], by rw [← h6, hsm.name],
+      by rw [← h2', hsm.pid]⟩
+
+/-- **`checkInfos` passes.**  `a` simulates `base`; every CLIENT_INFO frame among the events describes a module as the
+table of `base` has it (`InfoTo`), frames about connections in `E` excepted — and those are not connected in `a`. -/
+theorem checkInfos_pass {cfg : Cfg} {a X : A} {base s0 s2 : State} {E : Nat → Prop} (hs : Sim cfg a base)
+    (hi : InfoTo base E s0 s2) (evs : List Ev) (he : s2.out = s0.out ++ evs)
+    (hE : ∀ v am, E v → a.get v = some am → am.connected = false) (hX : X.mods = a.mods) :
+    Spec.checkInfos X evs = X := by
+  have hget : ∀ v, X.get v = a.get v := fun v => by unfold Spec.A.get; rw [hX]
+  refine checkInfos_core (cfg := cfg) hi evs he (fun v m am hm hg _ => ?_)
+    (fun v am hv hg => hE v am hv (by rw [← hget]; exact hg))
+  rw [hget] at hg
+  have hv0 : v ≠ 0 := by rw [← Spec.get_uid hg]; exact uid_pos hs.uids (Spec.get_mem hg)
+  obtain ⟨am', ham'⟩ := Option.isSome_iff_exists.mp ((hs.live v hv0).mpr (by simp [hm]))
+  have : am' = am := by
+    have := (Spec.live_some.mp ham').1
+    rw [hg] at this; cases this; rfl
+  subst this
+  exact hs.mods v am' m ham' hm
+
 /-! ## `checkAcks` through a simulation at the state where `send_ack` runs -/
 
 /-- `x`: the abstract state `checkAcks` is evaluated on; `b`: an abstract state that simulates the model state `sL` in
@@ -283,6 +326,40 @@ theorem removeSubCore_idx_keep (cfg : Cfg) (s : State) (u : Nat) (t : Int) (m : 
       · exact ⟨h, fun hh => hk hh.2⟩
       · exact ⟨h, fun hh => hk.1 hh.1⟩
 
+theorem addSubCore_uids (cfg : Cfg) (s : State) (u : Nat) (t : Int) :
+    (addSubCore cfg s u t).mods.map (·.uid) = s.mods.map (·.uid) ∧ (addSubCore cfg s u t).nextDyn = s.nextDyn := by
+  unfold addSubCore; dsimp only
+  split
+  · exact ⟨uids_upd _ u _ (fun _ => rfl), rfl⟩
+  · split
+    · exact ⟨rfl, rfl⟩
+    · exact ⟨uids_upd _ u _ (fun _ => rfl), rfl⟩
+
+theorem removeSubCore_uids (cfg : Cfg) (s : State) (u : Nat) (t : Int) :
+    (removeSubCore cfg s u t).mods.map (·.uid) = s.mods.map (·.uid) ∧ (removeSubCore cfg s u t).nextDyn = s.nextDyn := by
+  unfold removeSubCore; dsimp only
+  split
+  · exact ⟨uids_upd _ u _ (fun _ => rfl), rfl⟩
+  · split
+    · exact ⟨rfl, rfl⟩
+    · exact ⟨uids_upd _ u _ (fun _ => rfl), rfl⟩
+
+/-- a rewrite of `subs` only keeps the model invariants -/
+theorem minv_subs {cfg : Cfg} {s s' : State} {u : Nat} (h : MInvOn (fun _ => True) cfg s) (hu0 : u ≠ 0) (l : List Int)
+    (huids : s'.mods.map (·.uid) = s.mods.map (·.uid))
+    (hfind : ∀ v, s'.find v = (s.find v).map (fun m => if m.uid == u then { m with subs := l } else m))
+    (hd : s'.nextDyn = s.nextDyn) : MInvOn (fun _ => True) cfg s' := by
+  refine minv_close (minv_find (fm := fun m => { m with subs := l }) h hu0 huids hfind hd) (fun m' hm' hc => ?_)
+  rw [hfind] at hm'
+  cases h0 : s.find u with
+  | none => simp [h0] at hm'
+  | some x =>
+    simp only [h0, Option.map_some, Option.some.injEq] at hm'
+    subst hm'
+    split at hc <;> rename_i hx
+    · simp only [hx, if_true]; exact h.unconn u x trivial h0 hc
+    · simp only [hx, Bool.false_eq_true, if_false]; exact h.unconn u x trivial h0 hc
+
 /-- the table update of a subscription request keeps the simulation -/
 theorem subCore_sim {cfg : Cfg} {a : A} {s : State} (hs : Sim cfg a s) (u : Nat) (hu0 : u ≠ 0) (t : Int) (add : Bool)
     (m : Module) (hm : s.find u = some m) :
@@ -305,6 +382,7 @@ theorem subCore_sim {cfg : Cfg} {a : A} {s : State} (hs : Sim cfg a s) (u : Nat)
     obtain ⟨h1, h2, h3, h4, h5, _⟩ := addSubCore_misc cfg s u t
     refine sim_upd_find hs u _ (fun x => { x with subs := addSubsOf cfg t m.subs }) huid hal
       (addSubCore_find cfg s u t m hm) h1 h2 h3 h4 h5 ?_ ?_
+      (minv_subs hs.minv hu0 _ (addSubCore_uids cfg s u t).1 (addSubCore_find cfg s u t m hm) (addSubCore_uids cfg s u t).2)
       (fun am m' _ hm' h => by rw [hm] at hm'; cases hm'; exact simMod_add t h) (fun _ => rfl) (fun _ => rfl)
     · intro v m' t' hm' ht'
       rw [addSubCore_find cfg s u t m hm] at hm'
@@ -363,6 +441,8 @@ theorem subCore_sim {cfg : Cfg} {a : A} {s : State} (hs : Sim cfg a s) (u : Nat)
     obtain ⟨h1, h2, h3, h4, h5, _⟩ := removeSubCore_misc cfg s u t
     refine sim_upd_find hs u _ (fun x => { x with subs := rmSubsOf cfg t m.subs }) huid hal
       (removeSubCore_find cfg s u t m hm) h1 h2 h3 h4 h5 ?_ ?_
+      (minv_subs hs.minv hu0 _ (removeSubCore_uids cfg s u t).1 (removeSubCore_find cfg s u t m hm)
+        (removeSubCore_uids cfg s u t).2)
       (fun am m' _ hm' h => by rw [hm] at hm'; cases hm'; exact simMod_rm t h) (fun _ => rfl) (fun _ => rfl)
     · intro v m' t' hm' ht'
       rw [removeSubCore_find cfg s u t m hm] at hm'
